@@ -47,6 +47,12 @@ try:
         meta["ran"].append({"cmd": "VERIF_REPO=<worktree with the change> ./vcheck %s --tier quick" % c, "exit": r.returncode,
                             "summary": [l for l in lines if " tier=" in l][-1:] , "violations": len([l for l in lines if l.startswith("VIOLATION")]),
                             "first_violations": det[:3], "wall_s": round(time.time() - t0, 1)})
+    prev = os.path.join("/verif/seeded", name, "meta.json")
+    if os.path.exists(prev):                      # further checks for an already collected change: merge
+        old = json.load(open(prev))
+        if old.get("repo_head") == meta["repo_head"]:
+            have = {x["cmd"] for x in meta["ran"]}
+            meta["ran"] = [x for x in old.get("ran", []) if x["cmd"] not in have] + meta["ran"]
     meta["detected_by"] = [x["cmd"].split("vcheck ")[1].split()[0] for x in meta["ran"] if x["exit"] == 1]
     notes = os.path.join(src, "notes.md")
     meta["needs_to_manifest"] = open(notes).read()[:1500] if os.path.exists(notes) else ""
